@@ -629,8 +629,26 @@ func (g *c01CaseGen) helloResume(c int, rid string) {
 	g.ops = append(g.ops, h.line(g.w))
 }
 
+const c01SampleHello = `{"id":"1","type":"hello","hello":{"version":"2.0","features":["a"],"auth":{"type":"client","url":"https://cloud.example/one/","params":{"token":"a.b.c"}}}}`
+
 func (g *c01CaseGen) preHello(c int, n int) {
 	for i := 0; i < n; i++ {
+		if g.r.chance(1, 5) {
+			// malformed stream: a strict prefix of a JSON document, or bytes that cannot start one, never decodes
+			var raw string
+			if g.r.chance(1, 2) {
+				raw = c01SampleHello[:1+g.r.intn(len(c01SampleHello)-1)]
+			} else {
+				b := make([]byte, 1+g.r.intn(40))
+				for j := range b {
+					b[j] = byte(33 + g.r.intn(94))
+				}
+				b[0] = "x)]}:,#\\/"[g.r.intn(9)]
+				raw = string(b)
+			}
+			g.ops = append(g.ops, fmt.Sprintf("msg c=%d ty=%s shape=undecodable raw=%s", c, vEnc("?"), vEnc(raw)))
+			continue
+		}
 		k := g.r.intn(len(c01Messages))
 		m := c01Messages[k]
 		g.ops = append(g.ops, fmt.Sprintf("msg c=%d ty=%s shape=%s i=%d", c, vEnc(m.ty), m.shape, k))
